@@ -55,8 +55,11 @@ type Job struct {
 	MaxWallMs  int    `json:"max_wall_ms"`
 	// PreciseFeas: decide branch feasibility bit-precisely instead of with the
 	// UF abstraction of float arithmetic (fewer spurious paths, dearer queries)
-	PreciseFeas bool              `json:"precise_feas"`
-	Concrete    map[string]string `json:"concrete"` // self-test: variable values, no symbols
+	PreciseFeas bool `json:"precise_feas"`
+	// SummariseLogAdd (real mode): LogAdd(a,b) is replaced by its summary log(exp a + exp b)
+	// (discharged against the bodies by the C02 check), so the branch a > b does not fork
+	SummariseLogAdd bool              `json:"summarise_logadd"`
+	Concrete        map[string]string `json:"concrete"` // self-test: variable values, no symbols
 }
 
 type Obligation struct {
